@@ -890,7 +890,7 @@ def run():
         'records_by_a_copy_of_the_message_through_the_SimplePipeline_holding_A': sum(1 for rec in allrecs if rec.get('direct') and rec.get('via')),
         'own_formatter_objects_obtained_via': {'direct_construction': sum(1 for c in cases if not c.get('via')),
                                                'SimplePipeline::formatToSentry': sum(1 for c in cases if c.get('via'))},
-        'records_by_objects_obtained_through_formatToSentry': {SELS[k]: sum(1 for rec in allrecs if rec['sel'] == k and rec.get('via')) for k in (0, 1, 3)},
+        'records_by_objects_obtained_through_formatToSentry': {SELS[k]: sum(1 for rec in allrecs if rec['sel'] == k and rec.get('via') and not rec.get('direct')) for k in (0, 1, 3)},
         'records_with_non_ascii_text_by_locale_codec': {codec_of(tz): sum(1 for i in idxs[tz] if any(u > 127 for u in cases[i]['msg'])) for tz in TZS},
         'oracle_evaluated_on_impl_outputs': sum(len(r['recs']) for c, r in zip(cases, res) if c['stream'] != 'malformed'), 'oracle_falsified': len(bad),
         'oracle_falsified_by_kind': {k: sum(1 for b in bad if b[1][0] == k) for k in sorted({b[1][0] for b in bad})},
